@@ -13,6 +13,9 @@ impl embedded_io::Error for SinkErr {
     }
 }
 
+/// upper bound on what one session may write (the longest sessions of any workload stay below 1 MiB)
+pub const FLOOD_LIMIT: usize = 8 << 20;
+
 #[derive(Clone, Copy, Debug, PartialEq, Eq)]
 pub enum Fault {
     None,
@@ -91,6 +94,13 @@ impl Write for MonSink {
         }
         let n = if s.chunk > 0 { buf.len().min(s.chunk) } else { buf.len() };
         let a = s.bytes.len();
+        if a + n > FLOOD_LIMIT {
+            // no session of any workload writes anywhere near this much: the library is emitting output without end
+            // (e.g. a padding loop whose bound wrapped around). Stop it here -- as a panic, which every driver reports as a
+            // crash of the session -- instead of filling the machine's memory.
+            drop(s);
+            panic!("output flood: more than {} bytes written to the sink in one session", FLOOD_LIMIT);
+        }
         s.bytes.extend_from_slice(&buf[..n]);
         s.events.push(Ev::W(a, a + n));
         Ok(n)
